@@ -60,3 +60,14 @@ func (m *unExportedVarMocker) Set(value interface{}) {
 	m.defaultVarMocker.doSet(value)
 	logger.Consolefc(logger.DebugLevel, "mocker [%s] apply.", logger.Caller(5), m.String())
 }
+
+// Apply 变量取值回调函数, 只会执行一次
+// 变量类型取自 callback 的返回值类型
+// 注意: Apply 会覆盖之前设定 Set 的值
+func (m *unExportedVarMocker) Apply(callback interface{}) {
+	if f := reflect.TypeOf(callback); f != nil && f.Kind() == reflect.Func && f.NumOut() == 1 {
+		m.typ = f.Out(0)
+		m.targetValue = reflect.NewAt(m.typ, m.target)
+	}
+	m.defaultVarMocker.Apply(callback)
+}
